@@ -83,6 +83,11 @@ func ParseTimeOfDay(timeStr string) (time.Time, int, error) {
 	if err != nil {
 		return time.Time{}, 0, fmt.Errorf("invalid time string:%s, err:%s", timeStr, err.Error())
 	}
+	// Sscanf succeeds on any two space separated words; hhmmss must be exactly 6 bytes long
+	// (which also guarantees that timeStr is long enough for the slices below)
+	if len(prefixTimeStr) != 6 {
+		return time.Time{}, 0, fmt.Errorf("invalid time string:%s, expect hhmmssZ", timeStr)
+	}
 	ts, err := time.Parse("15:04:05", fmt.Sprintf("%s:%s:%s", timeStr[0:2], timeStr[2:4], timeStr[4:6]))
 	if err != nil {
 		return time.Time{}, 0, fmt.Errorf("time format invalid, err:%s", err.Error())
